@@ -70,15 +70,22 @@ Notation "p >>= f" := (bind p f) (at level 62, left associativity).
 Definition ret {A} (v : A) (rest : bytes) : sres A := SOk v rest O.
 
 (* Decoder.LiteralReader on the server side: (size, nonSync), rest after the CRLF *)
-(* the rest of the current line (up to CR or LF) ends with "+}" *)
+(* DiscardLine's view of the rest of the current line: the bytes up to the first LF (a CR
+   that is not followed by LF is part of the line), without the optional CR and the optional
+   SP that Decoder.CRLF accepts before LF; reversed.  None = the input ends before LF. *)
+Definition not_lf (c : byte) : bool := negb (beqb c LF_).
+Definition strip_last (x : byte) (rtext : bytes) : bytes :=
+  match rtext with c :: r => if beqb c x then r else rtext | [] => [] end.
+Definition line_tail_rev (s : bytes) : option (bytes * bytes) :=
+  match take_while not_lf s with
+  | None => None
+  | Some (text, r) =>
+      Some (strip_last SP_ (strip_last CR_ (rev text)), match r with _ :: x => x | [] => [] end)
+  end.
+(* the rest of the current line ends with "+}" *)
 Definition partial_header_nonsync (s : bytes) : bool :=
-  let fix line (s : bytes) : bytes :=
-    match s with
-    | [] => []
-    | c :: r => if beqb c CR_ || beqb c LF_ then [] else c :: line r
-    end in
-  match rev (line s) with
-  | c1 :: c2 :: _ => (b2n c1 =? 125) && (b2n c2 =? 43)
+  match line_tail_rev s with
+  | Some (c1 :: c2 :: _, _) => (b2n c1 =? 125) && (b2n c2 =? 43)
   | _ => false
   end.
 
@@ -94,10 +101,10 @@ Definition lit_header (s : bytes) : sres (N * bool) :=
           | DOk _ r3 =>
               match dec_crlf r3 with
               | DOk _ r4 => SOk (n, nonsync) r4 O
-              | DNo r' => SErr (io_or_syntax r') false O r'
+              | DNo r' => SErr (io_or_syntax r') (partial_header_nonsync r') O r'
               | DErr => SErr 3 false O r3
               end
-          | DNo r' => SErr 2 false O r'
+          | DNo r' => SErr 2 (partial_header_nonsync r') O r'   (* Decoder.litHeader is still set *)
           | DErr => SErr 3 false O r2
           end
       | DNo r' =>
@@ -144,11 +151,10 @@ Definition s_mailbox (s : bytes) : sres bytes :=
       else match utf7_decode name with
            | Some n => SOk n r k
            | None =>
-               (* a plain Go error: NO [SERVERBUG].  If the name came as a literal nothing has
-                  been read through readByte since the CRLF of the literal header, so
-                  Decoder.crlf is still set and DiscardLine will not skip the rest of the
-                  line (class 4 = NO with the flag still set) *)
-               SErr (match s with c :: _ => if b2n c =? 123 then 4 else 1 | [] => 1 end) false k r
+               (* a plain Go error: NO [SERVERBUG].  If the name came as a literal,
+                  LiteralReader.Read has cleared Decoder.crlf when the literal data ended, so
+                  DiscardLine skips the rest of the line like after any other error *)
+               SErr 1 false k r
            end
   | SNo r => SNo r
   | SErr c cl k r => SErr c cl k r
@@ -172,16 +178,14 @@ Fixpoint ends_nonsync_lit (rtext : bytes) : bool :=   (* rtext = reversed discar
          end) r false
   | _ => false
   end.
-(* DiscardLine: rest after the line, and whether the discarded text announced a
-   non-synchronising literal *)
+(* DiscardLine: rest after the line (which ends at the first LF), and whether the discarded
+   text announced a non-synchronising literal ("{n+}", then optional SP, optional CR, LF) *)
 Definition discard_line (crlf_seen : bool) (s : bytes) : bytes * bool :=
   if crlf_seen then (s, false)
   else
-    match take_while not_eol s with
+    match line_tail_rev s with
     | None => ([], false)                              (* EOF while discarding *)
-    | Some (text, r) =>
-        let r' := match dec_crlf r with DOk _ x => x | DNo x => x | DErr => [] end in
-        (r', ends_nonsync_lit (rev text))
+    | Some (rtext, r') => (r', ends_nonsync_lit rtext)
     end.
 (* bufio.Reader.ReadLine (lines up to the buffer size): Some (line without CRLF / LF, rest) *)
 Fixpoint read_line (s : bytes) : option (bytes * bytes) :=
